@@ -336,6 +336,15 @@ class MonitoredFocusList(MonitoredList[_T], typing.Generic[_T]):
         if focus is not None:
             return focus
 
+        # normalize reversed and empty ranges to the equivalent ascending range
+        if step < 0:
+            if num_removed:
+                start, stop, step = start + (num_removed - 1) * step, start + 1, -step
+            else:
+                start, stop, step = 0, 0, 1
+        if stop < start:
+            stop = start
+
         focus = self._focus
         if step == 1:
             if start + num_new_items <= focus < stop:
